@@ -1,6 +1,6 @@
 (* C10 -- ANOVA decomposition.  Statements only.  Model: Model/Anova.v (anova_decomposition applies to every
    mode the matrix [w ; I - 1 w^T]; undo adds row 0 back). *)
-From TN Require Import Proofs.AnovaP Alg.Inst Harness.HBase.
+From TN Require Import Proofs.AnovaP Proofs.ArithP Proofs.SobolP Proofs.TruncateP Alg.Inst Harness.HBase.
 
 Section C10.
 Variable K : Ops.
@@ -30,9 +30,31 @@ Proof. exact (amat_centred K Kth). Qed.
 Theorem C10_reconstruct : forall (w : nat -> K) n i k, (i < n)%nat ->
   sumn (S n) (fun j => bmat i j * amat w j k) = delta i k.
 Proof. exact (bmat_amat K Kth). Qed.
+
+(* truncate_anova(t, mask, keepdim=True) = undo(mask(anova(t))) is the mask-weighted sum of the ANOVA terms: the term of
+   subset al at x is the entry of the extended tensor at sel al x (0 where the variable is absent, x_n + 1 where present) *)
+Theorem C10_truncate : forall (ws : list (nat -> K)) (mask cs r : list (score K)) x,
+  good K cs -> good K mask -> length ws = length cs -> length mask = length cs ->
+  sshape mask = repeat 2%nat (length mask) ->
+  truncate_net K ws mask cs = Some r -> in_range (sshape cs) x = true ->
+  eval r x = sumidx (repeat 2%nat (length cs)) (fun al => eval mask al * eval (anova_net ws cs) (sel al x)).
+Proof. exact (truncate_sound K Kth). Qed.
+(* a term depends only on its own variables *)
+Theorem C10_term_depends_only : forall al x y, length x = length y ->
+  (forall n, nth n al O <> O -> nth n x O = nth n y O) -> sel al x = sel al y.
+Proof. exact sel_depends_only. Qed.
+(* distinct terms are orthogonal under the product measure (Parseval form): E[F G] = sum over the extended index of
+   mu(e) (A F)(e) (A G)(e); with F = G the term variances add up to the second moment *)
+Theorem C10_terms_orthogonal : forall (ws : list (nat -> K)) ds (F G : list nat -> K), normalised K ws ds ->
+  sumidx (map S ds) (fun e => mprod K ws e * (dlin (map amat ws) ds F e * dlin (map amat ws) ds G e)) =
+  sumidx ds (fun x => wprod K ws x * (F x * G x)).
+Proof. exact (anova_parseval K Kth). Qed.
 End C10.
 
 Print Assumptions C10_extended.
 Print Assumptions C10_undo.
 Print Assumptions C10_centred.
 Print Assumptions C10_reconstruct.
+Print Assumptions C10_truncate.
+Print Assumptions C10_term_depends_only.
+Print Assumptions C10_terms_orthogonal.
